@@ -351,7 +351,7 @@ def families(pid, tier):
             return [("f2_faults_cancel", F2, (1, 2), 1, 0, "ConfigsFaults", True),
                     ("f3_faults", F3, (2,), 1, 3, "ConfigsFaults", False)]
         return [("f2_faults_cancel", F2, (1, 2, 3), 1, 0, "ConfigsFaults", True),
-                ("f3_faults_cancel", F3, (1, 2), 1, 40, "ConfigsFaults", True),
+                ("f3_faults_cancel", F3, (1, 2), 1, 12, "ConfigsFaults", True),
                 ("fd_override_cancel", FD, (1, 2), 1, 0, "ConfigsOvr", True)]
     raise vf.MachineryError("unknown property " + pid)
 
@@ -570,7 +570,7 @@ def c07_runs(cases, tier, rng):
     for ci, c in enumerate(cases):
         ks = [0] + (list(range(1, kmax + 1)) if tier == "thorough" else sorted(rng.sample(range(1, kmax + 1), 6)))
         for k in ks:
-            for s in (seeds_for(2) if k == 0 or tier == "thorough" else seeds_for(2)[1:]):
+            for s in (seeds_for(2) if k == 0 else seeds_for(2)[1:]):
                 r = {"id": rid, "case": ci, "imports": c["imports"], "req": c["req"], "plan": c["plan"], "par": c["par"],
                      "ovr": c.get("ovr", False), "seed": s, "cancel": k, "trace": True}
                 runs.append(r)
@@ -580,7 +580,8 @@ def c07_runs(cases, tier, rng):
                     r2 = dict(r); r2["id"] = rid; r2["srcres"] = True
                     runs.append(r2)
                     rid += 1
-    if tier == "quick" and len(runs) > 3000:
-        keep = sorted(rng.sample(range(len(runs)), 3000))
+    cap = 3000 if tier == "quick" else 60000
+    if len(runs) > cap:
+        keep = sorted(rng.sample(range(len(runs)), cap))
         runs = [runs[i] for i in keep]
     return runs
